@@ -245,10 +245,38 @@ Proof. unfold le_type, TYPE_LOG, TYPE_METRIC. destruct (le_line e), (le_val e); 
 
 Lemma loki_json_ok body : calls_ok (calls_loki_json body) (entries_loki_json body).
 Proof.
-  unfold calls_loki_json, entries_loki_json. apply calls_ok_map. intros s _. split.
+  unfold calls_loki_json, entries_loki_json. apply calls_ok_map. intros ms _. unfold loki_call, loki_entries. split.
   - apply call_wf_maps. intros e _. apply le_type_le2.
   - apply call_entries_maps.
 Qed.
+
+(* the members of a stream object may come in any order and be interleaved with unknown keys *)
+Lemma decode_stream_general : forall ms la ea,
+  fold_left member_step ms (la, ea) =
+  (fold_left (fun a l => sanitize_labels (a ++ l)) (members_labels ms) la, (ea ++ List.concat (members_entries ms))%list).
+Proof.
+  induction ms as [|m ms IH]; intros la ea; cbn [fold_left members_labels members_entries flat_map].
+  - cbn. now rewrite app_nil_r.
+  - destruct m as [l|es|]; cbn [member_step fst snd app].
+    + rewrite IH. reflexivity.
+    + rewrite IH. cbn [List.concat]. now rewrite app_assoc.
+    + apply IH.
+Qed.
+
+Lemma decode_stream_wf ms s : wf_members ms s -> decode_stream ms = (sanitize_labels (ls_labels s), ls_entries s).
+Proof.
+  intros [Hl He]. unfold decode_stream. rewrite decode_stream_general.
+  unfold members_labels, members_entries in *. rewrite Hl, He. cbn. now rewrite app_nil_r.
+Qed.
+
+Lemma entries_loki_json_wf bm b : Forall2 wf_members bm b -> entries_loki_json bm = entries_loki_streams b.
+Proof.
+  unfold entries_loki_json, entries_loki_streams. induction 1 as [|ms s bm b Hw _ IH]; cbn [flat_map]; [reflexivity|].
+  rewrite (decode_stream_wf ms s Hw), IH. reflexivity.
+Qed.
+
+Lemma members_of_wf s : wf_members (members_of s) s.
+Proof. split; reflexivity. Qed.
 
 Lemma loki_pb_ok body : calls_ok (calls_loki_pb body) (entries_loki_pb body).
 Proof.
